@@ -72,6 +72,8 @@ type ersWorld struct {
 	settings []*edsv1.ExtendedDaemonsetSetting
 	dss      []*appsv1.DaemonSet
 	cat      []string
+	pmax     int32
+	fmax     int32
 }
 
 func genErsWorld(r *rand.Rand, now time.Time) *ersWorld {
@@ -82,9 +84,33 @@ func genErsWorld(r *rand.Rand, now time.Time) *ersWorld {
 	ru := &eds.Spec.Strategy.RollingUpdate
 	ru.MaxUnavailable = ios(intstr.FromInt(1 + r.Intn(3)))
 	ru.SlowStartAdditiveIncrease = ios(intstr.FromInt(1 + r.Intn(5)))
-	if r.Intn(3) != 0 {
-		eds.Spec.Strategy.Canary = genCanarySpec(r)
+	if r.Intn(3) == 0 { // the whole lattice of rolling-update values, including unparsable ones
+		keep := eds.Spec.Strategy.ReconcileFrequency
+		eds.Spec.Strategy = genRollingStrategy(r, 4)
+		eds.Spec.Strategy.ReconcileFrequency = keep
+		w.cat = append(w.cat, "rolling-strategy-lattice")
 	}
+	var pmax, fmax int32 = 2, 5
+	if r.Intn(3) != 0 {
+		c := genCanarySpec(r)
+		eds.Spec.Strategy.Canary = c
+		if r.Intn(2) == 0 { // thresholds around which the restart counts below are generated
+			*c.AutoPause.Enabled, *c.AutoFail.Enabled = r.Intn(4) != 0, r.Intn(4) != 0
+			*c.AutoPause.MaxRestarts = int32(r.Intn(4))
+			*c.AutoFail.MaxRestarts = *c.AutoPause.MaxRestarts + int32(r.Intn(4))
+			if r.Intn(2) == 0 {
+				c.AutoPause.MaxSlowStartDuration = &metav1.Duration{Duration: time.Duration(30+r.Intn(300)) * time.Second}
+			}
+			if r.Intn(2) == 0 {
+				c.AutoFail.MaxRestartsDuration = &metav1.Duration{Duration: time.Duration(30+r.Intn(600)) * time.Second}
+			}
+			if r.Intn(2) == 0 {
+				c.AutoFail.CanaryTimeout = &metav1.Duration{Duration: time.Duration(600+r.Intn(1200)) * time.Second}
+			}
+		}
+		pmax, fmax = *c.AutoPause.MaxRestarts, *c.AutoFail.MaxRestarts
+	}
+	w.pmax, w.fmax = pmax, fmax
 	if r.Intn(25) == 0 {
 		eds.Spec.Strategy.ReconcileFrequency = nil
 		w.cat = append(w.cat, "eds-not-defaulted")
@@ -177,6 +203,13 @@ func genErsWorld(r *rand.Rand, now time.Time) *ersWorld {
 			}
 			if r.Intn(6) == 0 {
 				p.Status.Phase = pick(r, corev1.PodFailed, corev1.PodUnknown)
+			}
+			if r.Intn(2) == 0 { // kubelet-reported container state: restarts, waiting reasons, start time
+				stt := mt(now.Add(-time.Duration(r.Intn(600)) * time.Second))
+				p.Status.StartTime = &stt
+				for ci := r.Intn(2); ci >= 0; ci-- {
+					p.Status.ContainerStatuses = append(p.Status.ContainerStatuses, genContainerStatus(r, fmt.Sprintf("c%d", ci), w.pmax, w.fmax, now))
+				}
 			}
 			if owner == b && eds.Status.Canary != nil && r.Intn(2) == 0 {
 				p.Labels[edsv1.ExtendedDaemonSetReplicaSetCanaryLabelKey] = edsv1.ExtendedDaemonSetReplicaSetCanaryLabelValue
